@@ -152,7 +152,7 @@ Print Assumptions c14_model_satisfies_monitors.
 
 (* hence the whole checker (replay + monitors) accepts every history the model itself produces *)
 Theorem c14_model_run_check_clean : forall cfg evs, cfg_ok cfg = true ->
-  length (run_obs step_opt (hinit cfg) evs) = length evs -> run_check_routine cfg evs (run_obs step_opt (hinit cfg) evs) = [].
+  length (run_obs step_opt (hinit cfg) evs) = length evs -> run_check_routine0 cfg evs (run_obs step_opt (hinit cfg) evs) = [].
 Proof. exact model_run_check_clean. Qed.
 Print Assumptions c14_model_run_check_clean.
 
@@ -162,11 +162,11 @@ Print Assumptions c14_model_run_check_clean.
    model, so the model's own trace has no parked callback when the monitor demands one (14/3). *)
 Example c14_cfg_needs_an_exit_callback :
   let cfg := [0; 1; 0; 0; 0]%N in let evs := [[1; 1; 0]; [2; 1]; [8; 0; 1]; [9; 0; 0]; [10; 0]; [13; 0]; [14; 0]]%N in
-  cfg_ok cfg = false /\ run_check_routine cfg evs (run_obs step_opt (hinit cfg) evs) = [PropFalse 14 4 6].
+  cfg_ok cfg = false /\ run_check_routine0 cfg evs (run_obs step_opt (hinit cfg) evs) = [PropFalse 14 4 6].
 Proof. vm_compute. split; reflexivity. Qed.
 Example c14_cfg_needs_nonzero_durations :
   let cfg := [0; 1; 1; 1; 0; 0]%N in let evs := [[2; 1]; [1; 1; 0]; [8; 0; 1]; [9; 0; 3]; [10; 0]]%N in
-  cfg_ok cfg = false /\ run_check_routine cfg evs (run_obs step_opt (hinit cfg) evs) = [PropFalse 14 3 4].
+  cfg_ok cfg = false /\ run_check_routine0 cfg evs (run_obs step_opt (hinit cfg) evs) = [PropFalse 14 3 4].
 Proof. vm_compute. split; reflexivity. Qed.
 
 (* non-vacuity, and the situation that the proof attempt exposed in the monitor: the success exit of a routine that was
@@ -178,5 +178,42 @@ Example c14_example_replaced_success_resets_backoff :
   let evs := [[1; 1; 0]; [2; 1]; [8; 0; 1]; [9; 0; 2]; [10; 0]; [11; 300]; [12; 0]; [8; 1; 1]; [2; 2]; [9; 1; 0]; [10; 1]; [8; 2; 1];
               [9; 2; 2]; [10; 2]; [11; 100]; [11; 200]; [12; 0]]%N in
   cfg_ok cfg = true /\ length (run_obs step_opt (hinit cfg) evs) = 17 /\
-  run_check_routine cfg evs (run_obs step_opt (hinit cfg) evs) = [].
+  run_check_routine0 cfg evs (run_obs step_opt (hinit cfg) evs) = [].
 Proof. vm_compute. repeat split; reflexivity. Qed.
+
+(* ---- the container built with routine.WithRetry(conf) (configuration hasbo = 2: conf = the backoff package's constant
+   kind): the retry script is not supplied by the harness but computed by the model of the backoff package
+   (Backoff.Model.Construct / bo_script; its own theorems are in Backoff/Props_C14_backoff.v).  The expanded
+   configuration is an ordinary scripted one, all durations non-zero, so everything above applies to it. *)
+Theorem c14_real_backoff_config_expands : forall v c n x d rest,
+  expand (v :: c :: n :: 2 :: x :: d :: rest)%N = (v :: c :: n :: 1 :: x :: repeat (if N.eqb d 0 then 5000 else d) real_script_len)%N.
+Proof. exact expand_real_constant. Qed.
+Print Assumptions c14_real_backoff_config_expands.
+
+Theorem c14_model_run_check_clean_real_backoff : forall v c n x d rest evs, nz n = true ->
+  let cfg := (v :: c :: n :: 2 :: x :: d :: rest)%N in
+  length (run_obs step_opt (hinit (expand cfg)) evs) = length evs ->
+  run_check_routine cfg evs (run_obs step_opt (hinit (expand cfg)) evs) = [].
+Proof. exact model_run_check_clean_real. Qed.
+Print Assumptions c14_model_run_check_clean_real_backoff.
+
+(* a failing instance under the package-default constant back-off (5000 ms) is retried exactly when 5000 ms have passed *)
+Example c14_example_real_backoff_default :
+  let cfg := [0; 1; 1; 2; 0; 0]%N in
+  let evs := [[1; 1; 0]; [2; 1]; [8; 0; 1]; [9; 0; 2]; [10; 0]; [11; 4999]; [11; 1]; [12; 0]]%N in
+  length (run_obs step_opt (hinit (expand cfg)) evs) = 8 /\ run_check_routine cfg evs (run_obs step_opt (hinit (expand cfg)) evs) = [].
+Proof. vm_compute. split; reflexivity. Qed.
+
+(* hasbo = 3: routine.WithRetry(&backoff.Backoff{}) - the empty configuration, i.e. the package's default exponential
+   back-off 800 ms x float32(1.8) up to 20 s, in whole milliseconds as the 1 ms clock of the harness sees it *)
+Theorem c14_real_default_backoff_config_expands : forall v c n x rest,
+  expand (v :: c :: n :: 3 :: x :: rest)%N = (v :: c :: n :: 1 :: x :: default_expo_script)%N.
+Proof. exact expand_real_default. Qed.
+Print Assumptions c14_real_default_backoff_config_expands.
+
+Theorem c14_model_run_check_clean_real_default_backoff : forall v c n x rest evs, nz n = true ->
+  let cfg := (v :: c :: n :: 3 :: x :: rest)%N in
+  length (run_obs step_opt (hinit (expand cfg)) evs) = length evs ->
+  run_check_routine cfg evs (run_obs step_opt (hinit (expand cfg)) evs) = [].
+Proof. exact model_run_check_clean_real_default. Qed.
+Print Assumptions c14_model_run_check_clean_real_default_backoff.
